@@ -25,7 +25,7 @@ From Coq Require Import List NArith PArith Bool Arith Lia FMapPositive.
 From OxiVerif Require Import DD.Table DD.TableProofs DD.Canon DD.Sem DD.Build DD.BuildProofs
   DD.Apply DD.ApplyProofs DD.ApplyEvalProofs DD.ConfigApply DD.ConfigRun DD.Iso
   DD.Quant DD.QuantSpecProofs DD.QuantLemmas DD.QuantTopProofs
-  Mgr.SortOrder Mgr.LevelSwap
+  Mgr.SortOrder Mgr.SortOrderProofs Mgr.LevelSwap
   Mgr.History Mgr.HistoryBase Mgr.HistoryProofs.
 Import ListNotations.
 
@@ -282,6 +282,64 @@ Proof.
     destruct (order_ok_b _ order); [|discriminate].
     destruct (nat_list_eqb _ _); inversion E; reflexivity.
   - intros x e Eg. apply F2. left. exists (x, e). split; [apply hget_In; exact Eg | reflexivity].
+Qed.
+
+(** ** The request checker *)
+
+Lemma nodup_b_spec : forall l, nodup_b l = true <-> NoDup l.
+Proof.
+  induction l as [|x r IH]; simpl.
+  - split; [constructor | reflexivity].
+  - rewrite andb_true_iff, negb_true_iff, IH. split.
+    + intros [A B]. constructor; [|exact B]. intros Hin.
+      assert (X : existsb (Nat.eqb x) r = true) by (apply existsb_exists; exists x; split; [exact Hin | apply Nat.eqb_refl]).
+      congruence.
+    + intros Hnd. inversion Hnd as [|? ? Hx Hr]; subst. split; [|exact Hr].
+      destruct (existsb (Nat.eqb x) r) eqn:X; [|reflexivity]. exfalso. apply Hx.
+      apply existsb_exists in X. destruct X as [y [Hy E]]. apply Nat.eqb_eq in E. subst. exact Hy.
+Qed.
+
+Lemma occupied_b_spec : forall st k, occupied_b C st k = true <-> occupied C st k.
+Proof.
+  intros st k. unfold occupied_b, occupied. destruct (hslot C st k) as [r|].
+  - split; [eauto | reflexivity].
+  - split; [discriminate | intros [r E]; discriminate].
+Qed.
+
+Theorem hop_pre_b_spec : forall st o, hop_pre_b C st o = true <-> hop_pre st o.
+Proof.
+  intros st o. destruct o; simpl;
+    rewrite ?andb_true_iff, ?occupied_b_spec, ?Nat.ltb_lt; try tauto.
+  - (* HNewSubst *)
+    rewrite nodup_b_spec, forallb_forall. split.
+    + intros [A B]. split; [exact A|]. intros v k Hin. specialize (B (v, k) Hin). simpl in B.
+      rewrite andb_true_iff, Nat.ltb_lt, occupied_b_spec in B. exact B.
+    + intros [A B]. split; [exact A|]. intros [v k] Hin. simpl.
+      rewrite andb_true_iff, Nat.ltb_lt, occupied_b_spec. apply (B v k Hin).
+  - (* HSubst *)
+    destruct (hreg_fn (h_reg C st) id) as [p|]; split.
+    + intros [A _]. split; [exact A | eauto].
+    + intros [A _]. auto.
+    + intros [_ X]. discriminate.
+    + intros [_ [p X]]. discriminate.
+  - (* HSetVarOrder *)
+    rewrite SortOrderProofs.order_ok_b_valid. unfold SortOrderProofs.valid_order. tauto.
+Qed.
+
+Theorem hops_pre_b_spec : forall ops st, hops_pre_b gt C cget cadd cempty st ops = true -> hops_pre st ops.
+Proof.
+  induction ops as [|o rest IH]; intros st Hb; simpl in *; [exact I|].
+  apply andb_true_iff in Hb. destruct Hb as [A B]. split; [apply hop_pre_b_spec; exact A|].
+  intros st1 E. rewrite E in B. apply IH. exact B.
+Qed.
+
+(** a history accepted by the checker runs to completion, in a reachable state *)
+Theorem hrun_checked : forall n ops, hops_pre_b gt C cget cadd cempty (hinit n) ops = true ->
+  exists st, hrun (hinit n) ops = Some st /\ hreach n st.
+Proof.
+  intros n ops Hb. pose proof (hops_pre_b_spec ops (hinit n) Hb) as P.
+  destruct (hrun_ok ops (hinit n) (hinit_inv n) P) as [st [E _]].
+  exists st. split; [exact E|]. exists ops. auto.
 Qed.
 
 End Thms.
